@@ -6,7 +6,7 @@
 From Coq Require Import List NArith Bool Arith Lia.
 From Verif Require Import Trie.Model Trie.Keys Trie.ProofsWf Trie.Theorems
   Store.Model Store.Proofs Store.ProofsCommit Store.ProofsReach Store.ProofsPrune Store.ProofsLink
-  Store.ExamplesPrune Store.WorkTrie Store.ProofsWork.
+  Store.ExamplesPrune Store.WorkTrie Store.ProofsWork Store.ProofsDirty.
 Import ListNotations.
 
 Definition bigF : wnode nat -> bool := fun _ => false.       (* no full node below the root has a hash: all embedded *)
@@ -159,3 +159,29 @@ Definition yopsA : list (hop nat) := [HUpd ka (Some 1%nat); HUpd kb (Some 2%nat)
 Definition yopsB : list (hop nat) := [HUpd kb (Some 2%nat); HUpd kc (Some 9%nat); HUpd ka (Some 5%nat); HUpd kc None; HUpd ka (Some 1%nat)].
 Example y_same_tree : lrun Nat.eqb yopsA Nil = lrun Nat.eqb yopsB Nil.
 Proof. vm_compute. reflexivity. Qed.
+
+(* a client that keeps the node tree its commit returned (muxdb's root-node cache) instead of re-opening a reference:
+   blocks 0 and 1 again through block_from; the stores are the same as with reference handles *)
+Definition ykept0 := block_from nat Nat.eqb ys0 0 WNil v0 bigT false yops0.
+Definition ykept1 :=
+  match ykept0 with
+  | Some (w, s) => block_from nat Nat.eqb s 0 w v1 bigF false yops1
+  | None => None
+  end.
+Example y_kept_handle_same_stores :
+  (match ykept0 with Some (_, s) => s = ys1 | None => False end) /\
+  (match ykept1 with Some (w, s) => s = ys2 /\ enc_child nat w = SRef v1 | None => False end).
+Proof. split; vm_compute; auto. Qed.
+
+(* a delete that reports `true` on a handle opened as a reference: the result is dirty along the key *)
+Example y_delete_dirty :
+  exists w', w_delete nat (sget nat ys2 0) 4 (WRef v1) [] ka = Some (true, w') /\ Spine nat w' ka.
+Proof.
+  eexists. split; [vm_compute; reflexivity|].
+  eapply (delete_spine nat (sget nat ys2 0) 4 (WRef v1) [] ka). vm_compute. reflexivity.
+Qed.
+(* and one that reports `false` (the key is absent): the root reference is replaced by the clean node it resolved to *)
+Example y_delete_clean :
+  exists w', w_delete nat (sget nat ys2 0) 4 (WRef v1) [] kd = Some (false, w') /\
+             w_resolve_ref nat (sget nat ys2 0) [] v1 = Some w' /\ dirty_paths nat [] w' = [].
+Proof. eexists. split; [vm_compute; reflexivity|split; vm_compute; reflexivity]. Qed.
